@@ -10,6 +10,7 @@
 #include "util/util.h"
 #include "sqfs/dir_entry.h"
 #include "sqfs/error.h"
+#include "sqfs/dir.h"
 #include "sqfs/io.h"
 
 #include <stdlib.h>
@@ -27,6 +28,9 @@ typedef struct {
 	int state;
 	dir_stack_t *top;
 
+	/* number of entries on the stack */
+	size_t depth;
+
 	dir_stack_t *next_top;
 } dir_tree_iterator_t;
 
@@ -35,6 +39,7 @@ static void pop(dir_tree_iterator_t *it)
 	if (it->top != NULL) {
 		dir_stack_t *ent = it->top;
 		it->top = it->top->next;
+		it->depth -= 1;
 
 		sqfs_drop(ent->dir);
 		free(ent);
@@ -109,6 +114,7 @@ static int next(sqfs_dir_iterator_t *base, sqfs_dir_entry_t **out)
 		it->next_top->next = it->top;
 		it->top = it->next_top;
 		it->next_top = NULL;
+		it->depth += 1;
 	}
 
 	for (;;) {
@@ -145,6 +151,12 @@ static int next(sqfs_dir_iterator_t *base, sqfs_dir_entry_t **out)
 		sqfs_dir_iterator_t *sub = NULL;
 		const char *name = strrchr(ent->name, '/');
 		name = (name == NULL) ? ent->name : (name + 1);
+
+		/* the base directory is on the stack as well */
+		if (it->depth > SQFS_MAX_DIR_NESTING) {
+			ret = SQFS_ERROR_OVERFLOW;
+			goto fail;
+		}
 
 		ret = it->top->dir->open_subdir(it->top->dir, &sub);
 		if (ret != 0)
